@@ -195,7 +195,34 @@ def run_cross_version_history(case, part):
         check_parse(part, lambda inst=inst: json.dumps(inst), (), inst, "2.1", key, dict(case, id_class=ucls, context="parse(text)"), "non-v4-identifier-after-2.0-refusal/" + ucls, "hist:")
 
 
+def run_hash_case(case, part):
+    """every hashes slot of the maximal instance with upper-case and mixed-case digests (hex digits are case-insensitive; the spelling given is content and must come back)"""
+    env.reset()
+    version, key = case["version"], case["key"]
+    wrapped = inst = loc = None
+    for k2, l2, i2, w2, loc2 in harness.all_cases(version, keys=[key]):
+        if l2 == "max":
+            inst, wrapped, loc = i2, w2, loc2
+            break
+    if wrapped is None:
+        return
+    tkey = model.spec(version).key_for_type(wrapped["type"])
+    for path, v, p, ckey, pname in harness.typed_slots(wrapped, version, tkey):
+        if p["kind"] != "hashes" or not isinstance(v, dict):
+            continue
+        for style, fn in (("upper", str.upper), ("mixed", lambda x: "".join(ch.upper() if i % 2 else ch for i, ch in enumerate(x)))):
+            nv = {a: (fn(h) if a not in ("SSDEEP", "ssdeep") else h) for a, h in v.items()}
+            if nv == v:
+                continue
+            w2 = gen.set_path(wrapped, path, nv)
+            if model.validate(w2, version):
+                continue
+            check_parse(part, lambda w2=w2: copy.deepcopy(w2), loc, harness.locate(w2, loc), version, key, dict(case, slot=list(path), style=style, context="parse(dict)"), "hash-digest-letter-case/" + style, "hash:")
+
+
 def run_any(case, part):
+    if case.get("kind") == "hash-case":
+        return run_hash_case(case, part)
     if case.get("kind") == "cross-version-history":
         return run_cross_version_history(case, part)
     if case.get("kind") == "ts-sweep":
@@ -206,7 +233,7 @@ def run_any(case, part):
 
 
 def replay(case, part):
-    run_any({k: v for k, v in case.items() if k not in ("context", "selector", "path", "marking", "id_class")}, part)
+    run_any({k: v for k, v in case.items() if k not in ("context", "selector", "path", "marking", "id_class", "slot", "style")}, part)
 
 
 def run(run):
@@ -236,6 +263,9 @@ def run(run):
                 cases.append({"kind": "ts-sweep", "version": version, "key": key, "prop": prop, "digits": digits, "stride": stride, "lo": lo, "hi": min(lo + step, total)})
     for key in gen.Gen("2.1").top_keys():
         cases.append({"kind": "cross-version-history", "key": key})
+    for version in ("2.0", "2.1"):
+        for key in gen.Gen(version).top_keys():
+            cases.append({"kind": "hash-case", "version": version, "key": key})
     for version, which in (("2.0", "long-lists"), ("2.1", "long-lists"), ("2.1", "prefix-keys"), ("2.1", "long-nested-list")):
         cases.append({"kind": "granular-extra", "version": version, "which": which})
     run.pmap(run_any, cases, order_independent=True)
